@@ -159,14 +159,15 @@ class SqlParseLineageAnalyzer(LineageAnalyzer):
                         t for t in token.get_identifiers() if isinstance(t, Comparison)
                     ]
                 for c in comparisons:
-                    if isinstance(right := c.right, Identifier):
+                    # without a target table identified, there's no column lineage to build
+                    if holder.write and isinstance(right := c.right, Identifier):
                         src_col = Column(right.get_real_name())
                         src_col.parent = direct_source
                         tgt_col = Column(c.left.get_real_name())
                         tgt_col.parent = list(holder.write)[0]
                         holder.add_column_lineage(src_col, tgt_col)
             elif insert_flag:
-                if isinstance(token, Parenthesis):
+                if holder.write and isinstance(token, Parenthesis):
                     t = token.tokens[1]
                     identifiers = []
                     if isinstance(t, Identifier):
